@@ -84,6 +84,17 @@ def whole_program_mutants():
             else:
                 src = "tx t(n: Int) { locals { %s } %s %s }" % (chain, io, block)
             out.append(({"name": f"chain_used_by_{uname}_{depth}"}, HEAD + src))
+    # (valid programs) a parameter, local, input, party or env entry named like a built-in function and used as a plain
+    # value: the user's definition is what the name means inside the transaction
+    for fn in ("tip_slot", "min_utxo", "slot_to_time", "time_to_slot"):
+        io = "input source { from: Sender, min_amount: fees, } output { to: Receiver, amount: source - fees, }"
+        out.append(({"name": f"builtin_name_param_{fn}"}, HEAD + "tx t(%s: Int) { %s validity { until_slot: %s + 600, } }" % (fn, io, fn)))
+        out.append(({"name": f"builtin_name_local_{fn}"}, HEAD + "tx t(n: Int) { locals { %s: n + 1, } %s validity { until_slot: %s, } }" % (fn, io, fn)))
+        out.append(({"name": f"builtin_name_datum_{fn}"}, HEAD + "tx t(%s: Int) { output { to: Receiver, amount: Ada(%s), datum: Rec { f1: %s, f2: 0x01, }, } }" % (fn, fn, fn)))
+        out.append(({"name": f"builtin_name_input_{fn}"}, HEAD + "tx t(n: Int) { input %s { from: Sender, min_amount: fees, } output { to: Receiver, amount: %s - fees, } }" % (fn, fn)))
+        out.append(({"name": f"builtin_name_env_{fn}"}, HEAD.replace("env { e_int: Int, }", "env { e_int: Int, %s: Int, }" % fn) +
+                    "tx t(n: Int) { output { to: Receiver, amount: Ada(%s), } }" % fn))
+        out.append(({"name": f"builtin_name_party_{fn}"}, HEAD + "party %s; tx t(n: Int) { output { to: %s, amount: Ada(n), } }" % (fn, fn)))
     # a constructor without a case name on a type with several cases (there is no `Default` case to build)
     out.append(({"name": "implicit_ctor_variant"}, HEAD + "tx t(n: Int, b: Bytes) { output { to: Receiver, amount: Ada(1), datum: Var { x: n, y: b, }, } }"))
     out.append(({"name": "implicit_ctor_shared_fields"}, HEAD + "type Side { Buy { price: Int, }, Sell { price: Int, }, Hold { price: Int, }, } tx t(n: Int) { output { to: Receiver, amount: Ada(1), datum: Side { price: n, }, } }"))
